@@ -834,4 +834,17 @@ def toPatternChars (cs : List AttrChar) : List PatternChar :=
   cs.filterMap fun c =>
     if c.isQuoting then none else if c.isQuoted then some (.literal c.value) else some (.normal c.value)
 
+/-! ### the attributed characters of a shell word (extension round; used by the driver's shell legs) -/
+
+/-- an ordinary character of an expansion result: quoted (from inside `"…"`) or not -/
+def attrOf (quoted : Bool) (c : Char) : AttrChar := { value := c, isQuoted := quoted, isQuoting := false }
+
+/-- the `"` of a double-quoted part: a quoting character, not part of the value -/
+def quoteMark : AttrChar := { value := '"', isQuoted := false, isQuoting := true }
+
+/-- what `expand_word_attr` yields for the word `"$q"$p` (no field splitting): quote, the characters of `q`
+    quoted, quote, the characters of `p` unquoted -/
+def shellWord (q p : List Char) : List AttrChar :=
+  [quoteMark] ++ q.map (attrOf true) ++ [quoteMark] ++ p.map (attrOf false)
+
 end YashModel.Fnmatch
